@@ -11,18 +11,28 @@ META = {
             "is never used twice, frames in between are popped; with no live try the context stops with the error and "
             "nothing more is emitted; deferred calls of an activation are started once each, last registered first, on "
             "RunDefers and on panic unwinding; a recover in a deferred call makes unwindPanic pop exactly the panicking "
-            "frame and resume its caller. Tie: every run compares (a) the REAL compiler's control skeleton with "
+            "frame and resume its caller; a return whose RunDefers is directly followed by Return (bare return, end of body, "
+            "`return <expr>` with NAMED results) starts the activation's deferred calls once each, last first, and the next "
+            "step is back in the caller with the caller's defer list (C10_return_defers_once_partial; excluded: `return <expr>` "
+            "with UNNAMED results, where the code evaluates <expr> between RunDefers and Return). Tie: every run compares (a) the REAL compiler's control skeleton with "
             "compileCtl, (b) the REAL VM's marker trace at optimizer 0 and 2 with the VM model and with CtlSpec, for "
-            "generated programs nesting try/catch, defer, panic/recover, loops with break/continue and calls; and a "
-            "model-free oracle (reference interpreter written from the documented semantics) checks the real traces.",
+            "generated programs nesting try/catch, defer, panic/recover, loops with break/continue, calls and functions "
+            "with an unnamed / a named result whose return statements carry an expression that emits, raises or panics; "
+            "direct oracles: a reference interpreter written from the documented semantics checks the real traces and the "
+            "sequence of deferred calls started (each registered call once, last registered first), and — needing no "
+            "reference at all — no deferred call is started more often than its defer statement was executed.",
     "note": "trusted: Lean kernel; the harness; the reference interpreter's reading of docs/LANGUAGE.md (+ Go's rules for "
             "defer/panic/recover). Modelled-not-verified: value stack reduced to try markers and frames, symbol tables "
             "reduced to loop counters, catch sets = catch-all (no `?` operator), three-clause loops only. The refinement "
             "traceVM (compileCtl p) = traceSpec p is NOT proved (def C10_compile_correct_statement); it is checked by "
             "correspondence on every run. The property is silent about an ERROR leaving an activation (Ego abandons its "
-            "deferred calls); the oracle follows Ego there. Known findings (each with a Lean _counterexample): a panic raised inside a deferred call; an "
+            "deferred calls); the oracle follows Ego there. For `return <expr>` with an UNNAMED result the oracle follows Ego's own tests "
+            "(tests/defer/basic.ego, tests/flow/defer.ego: deferred calls run BEFORE <expr> is evaluated) and then demands "
+            "exactly once. Known findings (each with a Lean _counterexample): a panic raised inside a deferred call; an "
             "error escaping a deferred call into the function's own try; recover() in a nested deferred call reaching an "
-            "outer panic. Requires fixes/C10.patch (two compiler defects "
+            "outer panic; deferred calls run a second time when the expression of an unnamed-result return panics or raises "
+            "an error caught in the same function (moving RunDefers behind the expression breaks 7 of the project's tests, "
+            "so it is recorded, not repaired). Requires fixes/C10.patch (two compiler defects "
             "that made errors miss an active try).",
     "technique": "Lean 4 proof (induction over stacks / try stacks / defer lists of a small-step VM model) + "
                  "compiler-skeleton and trace correspondence + reference-interpreter oracle",
@@ -32,8 +42,9 @@ META = {
 REQUIRED = ["C10_catch_once", "C10_catch_never_twice", "C10_uncaught_stops", "C10_defer_lifo_once",
             "C10_defer_lifo_once_partial", "C10_defer_lifo_once_unwind", "C10_recover_stops_panic",
             "C10_recover_resumes_caller", "C10_unrecovered_keeps_unwinding", "C10_compile_sizes",
+            "C10_return_defers_once_partial", "C10_return_shapes",
             "C10_defer_abort_counterexample", "C10_defer_twice_counterexample",
-            "C10_recover_outer_counterexample"]
+            "C10_recover_outer_counterexample", "C10_return_expr_twice_counterexample"]
 
 
 def run(ctx):
@@ -63,13 +74,17 @@ def run(ctx):
     ctx.coverage.update({
         "evaluations": len(cases),
         "distinct_nontrivial": c.get("distinct_nontrivial", 0),
-        "rule": "programs of 1-4 functions over emit/raise/panic/try-catch/defer-closure/call/return/loop/break/continue/"
-                "recover, nesting depth <= 6 (quick) / 12 (thorough) plus up to 7 levels of the biased shape family "
+        "rule": "programs of 1-4 functions (no result / one unnamed / one named result) over emit/raise/panic/try-catch/"
+                "defer-closure/call/return/return-with-expression (mkv(k) | f() | 1/zero)/loop/break/continue/"
+                "recover, half of the result functions from the family '0-3 deferred calls, then return <expr>, under a try "
+                "of the same function or not, in a loop or not' (counters shape_ret_<kind>_defers<n>_<try|plain>, "
+                "ref_ret_expr_with_defers, ref_ret_expr_failed), nesting depth <= 6 (quick) / 12 (thorough) plus up to 7 levels of the biased shape family "
                 "(iteration left by break/continue from a catch block or try body 1-3 try levels inside the loop, the "
                 "loop 1-4 try/loop levels inside an outer try whose body raises again afterwards; counted by "
                 "ref_catch_left_by_break_continue / ref_catch_after_catch_left), fixed corpus of nasty shapes first; each program "
                 "gives 3 protocol lines (vm, spec, skel); non-trivial = the reference run used at least two of: a catch, "
-                "a recover, an error/panic crossing a deferred call or abandoning defers, call depth > 2",
+                "a recover, an error/panic crossing a deferred call or abandoning defers, call depth > 2, a return "
+                "expression evaluated with deferred calls registered",
         "samples": st.get("samples", []),
         "counters": c,
     })
